@@ -46,6 +46,8 @@ EXPECT = {  # subject substring -> checks that should detect the reversal
     "Handler::Context is atomic": ["C09"],
     "keeps its sub-second part": ["C15"],
     "exactly the one request that waited": ["C15"],
+    "only while it is the connection's pending one": ["C15"],
+    "survives a move of its ResponseWriter": ["C08"],
     "nothing left to write is ignored": ["C08"],
     "lock the peer once": ["C08"],
     "given up when a request on it times out": ["C15"],
